@@ -936,7 +936,11 @@ class TrustRegion:
                 * threshold
         ):
             self._penalty = max(
-                self._constants[Constants.PENALTY_INCREASE_FACTOR] * threshold,
+                min(
+                    self._constants[Constants.PENALTY_INCREASE_FACTOR]
+                    * threshold,
+                    np.finfo(float).max,
+                ),
                 1.0,
             )
             self.set_best_index()
